@@ -25,7 +25,9 @@ type kernelSpec struct {
 	Ret    string            // Lean return type
 	Target string            // fragment kernels: the assigned lvalue (normalised); "" for whole-function kernels
 	Occ    int               // fragment kernels: which maximal assignment chain inside Func (0-based, source order)
-	Kind   string            // "" whole function | "chain" (default when Target set) | "assign": the Occ-th plain assignment / definition of Target |
+	Total  int               // "assign": expected number of assignments to Target in Func (default Occ+1)
+	Kind   string            // "callargs": the argument lists of every call of Target in Func, as strings (a fact, compared with a committed expectation in Lean) |
+	//                          "" whole function | "chain" (default when Target set) | "assign": the Occ-th plain assignment / definition of Target |
 	//                          "guard": the condition of the innermost `if` whose body directly contains the call statement Target
 }
 
@@ -87,6 +89,13 @@ var kernelSpecs = []kernelSpec{
 		Params: []string{"expried : Nat16"}, Map: map[string]string{"lock.command.Expried": "expried"}},
 	{Name: "msSecondDeadlineExpried", Pkg: "server", Recv: "LockDB", Func: "checkMillisecondExpried", Ret: "Int", Target: "lock.expriedTime", Kind: "assign",
 		Params: []string{"start : Int", "expried : Nat16"}, Map: map[string]string{"lock.startTime": "start", "lock.command.Expried": "expried"}},
+	// follower-side expiry: the re-arm applied to a replicated hold that reaches its deadline off-leader, and which call sites may defer
+	{Name: "followerRearm", Pkg: "server", Recv: "LockDB", Func: "doExpried", Ret: "Int", Target: "lock.expriedTime", Kind: "assign", Occ: 0, Total: 2,
+		Params: []string{"now : Int"}, Map: map[string]string{"self.currentTime": "now"}},
+	{Name: "doExpriedCalls_checkMillisecondExpried", Pkg: "server", Recv: "LockDB", Func: "checkMillisecondExpried", Ret: "List (List String)", Target: "self.doExpried", Kind: "callargs"},
+	{Name: "doExpriedCalls_checkTimeExpried", Pkg: "server", Recv: "LockDB", Func: "checkTimeExpried", Ret: "List (List String)", Target: "self.doExpried", Kind: "callargs"},
+	{Name: "doTimeOutCalls_checkMillisecondTimeOut", Pkg: "server", Recv: "LockDB", Func: "checkMillisecondTimeOut", Ret: "List (List String)", Target: "self.doTimeOut", Kind: "callargs"},
+	{Name: "doTimeOutCalls_checkTimeTimeOut", Pkg: "server", Recv: "LockDB", Func: "checkTimeTimeOut", Ret: "List (List String)", Target: "self.doTimeOut", Kind: "callargs"},
 	{Name: "getMajorityMemberCount", Pkg: "server", Recv: "ArbiterManager", Func: "GetMajorityMemberCount", Ret: "Nat", Params: nil, Map: nil},
 }
 
@@ -477,7 +486,7 @@ func findFunc(p *pkgInfo, recv, name string) *ast.FuncDecl {
 func extractKernels(proto, server *pkgInfo, out *Output, fail func(error)) {
 	for i := range kernelSpecs {
 		spec := &kernelSpecs[i]
-		if spec.Map == nil { // specs without a map are handled by special-purpose code or skipped
+		if spec.Map == nil && spec.Kind != "callargs" { // specs without a map are handled by special-purpose code or skipped
 			continue
 		}
 		p := server
@@ -495,7 +504,9 @@ func extractKernels(proto, server *pkgInfo, out *Output, fail func(error)) {
 		k := &ktr{spec: spec, fset: p.fset, locals: map[string]string{}, consts: out.Consts}
 		var body string
 		var err error
-		if spec.Kind == "assign" {
+		if spec.Kind == "callargs" {
+			body, err = extractCallArgs(k, fd)
+		} else if spec.Kind == "assign" {
 			body, err = extractAssign(k, fd)
 		} else if spec.Kind == "guard" {
 			body, err = extractGuard(k, fd)
